@@ -179,6 +179,8 @@ PROGRAMS: dict[str, dict[str, Any]] = {
     # runs that end otherwise than by a StopEvent: the persisted end must be finalized with the matching status
     "fail": {"make": wf_fail, "expected": None, "expected_status": "failed", "responses": []},
     "cancel": {"make": wf_cancellable, "expected": "work:done", "responses": [], "cancel": True},
+    # the waiting run goes idle and is released from memory (idle_timeout 5 s) before the client answers: the answer reloads it
+    "wait_released_then_answered": {"make": lambda: wf_wait(False), "expected": "wait:any:100", "responses": [("any", 100)], "idle_timeout": 5.0},
     # the client answers only after the restart, at any point of the new process's start-up
     "wait_busy_answer_after_restart": {"make": wf_wait_busy, "expected": "wait:any:100", "responses": [("any", 100)], "answer_after_restart": True},
 }
@@ -232,6 +234,9 @@ def execute(ex: Execution, pname: str, backend: str, crash_at: int | None, netwo
     prog = PROGRAMS[pname]
     sh.clear_graveyard()
     sh.reset_ids()
+    from vmc import idle_harness as _ih
+
+    _ih.reset()
     path = sh.fresh_sqlite_path() if backend == "sqlite" else None
     store = sh.make_store(backend, path)
     ctl = sh.CrashControl(crash_at)
@@ -260,7 +265,10 @@ def execute(ex: Execution, pname: str, backend: str, crash_at: int | None, netwo
             cur_store["s"] = st
         lp = VLoop()
         lp.vt = vt0
-        e_ = EngineExec(ex, RunConfig(max_actions=120, allow_time=False), loop=lp)
+        it = float(prog.get("idle_timeout", 10_000.0))
+        e_ = EngineExec(ex, RunConfig(max_actions=120, allow_time=it < 1000), loop=lp)
+        if it < 1000:
+            e_.cfg.time_filter = lambda hh: bool(lp.timer_deadlines()) and lp.timer_deadlines()[0] - lp.vt < 1000
         e_.__enter__()
         crashed_ = False
         ext = {"n": 0}
@@ -269,7 +277,7 @@ def execute(ex: Execution, pname: str, backend: str, crash_at: int | None, netwo
         try:
             try:
                 ctl_.arm(st)
-                stack = sh.Stack(st, idle_timeout=10_000.0, wrap_basic=MonRuntime)
+                stack = sh.Stack(st, idle_timeout=it, wrap_basic=MonRuntime)
                 wf = prog["make"]()(timeout=None)
                 stack.add_workflow("wf", wf)
 
@@ -294,7 +302,17 @@ def execute(ex: Execution, pname: str, backend: str, crash_at: int | None, netwo
             except sh.Crash:
                 crashed_ = True
             sent = sum(1 for t in e_.h.internal_sends if type(t).__name__ == "TickAddEvent") + ext["n"]
-            out = {"crashed": crashed_, "vt": e_.loop.vt, "sent": sent, "n_persisted": ctl_.count, "adds_before": adds_before}
+            from vmc import idle_harness as ih_
+
+            rel_seen = False
+            reload_t = None
+            for entry in ih_.LIVE["log"]:
+                if entry[0] == "release":
+                    rel_seen = True
+                elif entry[0] == "loop_start" and rel_seen:
+                    reload_t = entry[2]
+            out = {"crashed": crashed_, "vt": e_.loop.vt, "sent": sent, "n_persisted": ctl_.count, "adds_before": adds_before,
+                   "reload_t": reload_t}
         finally:
             if crashed_:
                 sh.bury(e_.loop)
@@ -307,6 +325,7 @@ def execute(ex: Execution, pname: str, backend: str, crash_at: int | None, netwo
     # ---------------- phase 1: the first process
     p1 = process(True, 0.0, ctl)
     crashed, vt, sent_add_events, n_persisted = p1["crashed"], p1["vt"], p1["sent"], p1["n_persisted"]
+    reload_t = p1["reload_t"]
     if crash_at is not None and not crashed:
         # the run has fewer than crash_at ticks on this schedule: nothing to restart (covered by smaller k)
         return {"skipped": True, "ticks": n_persisted, "_metrics": {"max_concurrency": 1}}, []
@@ -325,6 +344,7 @@ def execute(ex: Execution, pname: str, backend: str, crash_at: int | None, netwo
             return {"skipped": True, "ticks": n_persisted + p2["n_persisted"], "_metrics": {"max_concurrency": 1}}, []
         vt, sent_add_events = p2["vt"], p2["sent"]
         adds_before_last = p2["adds_before"]
+        reload_t = p2["reload_t"]
     else:
         adds_before_last = 0
     store = cur_store["s"]
@@ -338,6 +358,8 @@ def execute(ex: Execution, pname: str, backend: str, crash_at: int | None, netwo
     with EngineExec(ex, RunConfig(max_actions=120, allow_time=False), loop=loop2) as e2:
         ticks = _persisted_ticks(loop2, store2, "run1")
         ended = any(_is_terminal_tick(td, pname) for td in ticks)
+        h_at_crash = _handler(loop2, store2)
+        idle_since_at_crash = getattr(h_at_crash, "idle_since", None)
         if crashed:
             stack2 = sh.Stack(store2, idle_timeout=10_000.0)
             wf2 = prog["make"]()(timeout=None)
@@ -372,6 +394,13 @@ def execute(ex: Execution, pname: str, backend: str, crash_at: int | None, netwo
             wk["store_reads_suspend"] = True
         if crash_at2 is not None:
             wk["process_stops"] = 2
+        if idle_flag:
+            # root cause of an idle flag on a working run: announced by the run itself (the recorded spurious-idle finding), or
+            # left over from before the run was reloaded on demand (a reload must clear it)
+            from vmc.loop import BASE_WALL
+
+            wk["idle_flag_predates_last_reload"] = bool(reload_t is not None and idle_since_at_crash is not None
+                                                        and idle_since_at_crash.timestamp() - BASE_WALL < reload_t - 1e-9)
         desc = (f"[{backend}] {pname}: process stopped after persisted tick {crash_at}"
                 + (f", restarted, stopped again after its own persisted tick {crash_at2}" if crash_at2 is not None else "")
                 + f" (a {last.get('type')} tick) "
@@ -397,6 +426,8 @@ def programs(tier: str) -> list[Program]:
     ps: list[Program] = []
     q = tier == "quick"
     for pname in PROGRAMS:
+        if pname == "wait_released_then_answered":
+            continue  # (programs listed separately below)
         for backend in ("memory", "sqlite"):
             # uninterrupted reference: every schedule must give the expected result
             ps.append(Program(f"{pname}/{backend}/uninterrupted", {"program": pname, "backend": backend, "crash_at": None},
@@ -406,7 +437,7 @@ def programs(tier: str) -> list[Program]:
                                   (lambda ex, pname=pname, backend=backend, k=k: execute(ex, pname, backend, k)),
                                   max_dev=(1 if q else 2)))
     # two process stops: the restarted server is stopped again after the j-th tick it persisted itself
-    for pname in (("chain", "fanin") if q else [p for p in PROGRAMS if p != "wait_busy_answer_after_restart"]):
+    for pname in (("chain", "fanin") if q else [p for p in PROGRAMS if p not in ("wait_busy_answer_after_restart", "wait_released_then_answered")]):
         for backend in (("sqlite",) if q else ("memory", "sqlite")):
             for k in ((2, 4, 6) if q else range(1, 13)):
                 for j in ((1, 2) if q else range(1, 7)):
@@ -414,6 +445,13 @@ def programs(tier: str) -> list[Program]:
                                       {"program": pname, "backend": backend, "crash_at": k, "crash_at2": j},
                                       (lambda ex, pname=pname, backend=backend, k=k, j=j: execute(ex, pname, backend, k, crash_at2=j)),
                                       max_dev=(1 if q else 2)))
+    # idle release and on-demand reload before the process stops
+    for backend in ("memory", "sqlite"):
+        for k in range(1, 9):
+            ps.append(Program(f"wait_released_then_answered/{backend}/crash_after_tick_{k:02d}",
+                              {"program": "wait_released_then_answered", "backend": backend, "crash_at": k},
+                              (lambda ex, backend=backend, k=k: execute(ex, "wait_released_then_answered", backend, k)),
+                              max_dev=(3 if q else 5)))
     # a network-backed store: reading suspends, so the client's answer can arrive at any point of the start-up resume
     for pname in ("wait_busy_answer_after_restart",):
         for backend in ("memory", "sqlite"):
